@@ -31,9 +31,9 @@ static void sys_addr(const char *proto, char *buf, size_t cap)
 {
     const char *dir = getenv("VERIF_RUNDIR");
     if (!strcmp(proto, "ux"))
-	snprintf(buf, cap, "ux:verif-%d-%d", (int)getpid(), sys_seq++);
+	snprintf(buf, cap, "ux:verif-%d-%d", (int)getpid(), __atomic_fetch_add(&sys_seq, 1, __ATOMIC_RELAXED));
     else if (!strcmp(proto, "uxf"))
-	snprintf(buf, cap, "uxf:%s/s%d-%d", dir ? dir : "/tmp", (int)getpid(), sys_seq++);
+	snprintf(buf, cap, "uxf:%s/s%d-%d", dir ? dir : "/tmp", (int)getpid(), __atomic_fetch_add(&sys_seq, 1, __ATOMIC_RELAXED));
     else
 	snprintf(buf, cap, "%s:127.0.0.1:0", proto);
 }
